@@ -187,7 +187,11 @@ def reindex_database(
     else:
         # Pages whose files have been deleted (or renamed) since the last time
         # we indexed them MUST NOT linger in the DB.
-        for zorg_page_name in sorted(set(old_file_to_hash) - set(file_to_hash)):
+        # NOTE: We ask the DB (instead of the old hash map) what pages it
+        # contains since the hash map is NOT written when a run is aborted.
+        for zorg_page_name in sorted(
+            set(session.repo.get_page_names()) - set(file_to_hash)
+        ):
             if session.repo.remove_file_by_name(zorg_page_name) is not None:
                 num_of_updates += 1
                 c.zprint(
